@@ -1,0 +1,126 @@
+//go:build verif
+// +build verif
+
+// Read-only exports of the node table (mHead / mBucket) for the verification harness (property C17,
+// Conc/CacheTable.v).  Add-only: nothing here is referenced by the package itself and no existing
+// line is changed.  VerifInitBucket, VerifEnumerate*, VerifTableDeleteKey call the package's own
+// functions (initBucket, enumerateNodes*, Cache.delete) exactly as its own goroutines do.
+
+package cache
+
+import (
+	"sync/atomic"
+	"unsafe"
+)
+
+// VerifTableNode is one node pointer of a bucket slice.
+type VerifTableNode struct {
+	Ptr     uintptr // identity of the node object (a removed node stays referenced by frozen buckets)
+	NS, Key uint64
+	Hash    uint32
+	Value   Value
+}
+
+// VerifBucketInfo is a snapshot of one mBucket (read under its mutex).
+type VerifBucketInfo struct {
+	State int // bucketUninitialized / bucketInitialized / bucketFrozen
+	Nodes []VerifTableNode
+}
+
+// VerifHeadInfo is a snapshot of one mHead.
+type VerifHeadInfo struct {
+	Ptr             uintptr // identity of the head object
+	Mask            uint32
+	HasPred         bool
+	Resizing        bool
+	Overflow        int32
+	GrowThreshold   int64
+	ShrinkThreshold int64
+	Buckets         []VerifBucketInfo
+}
+
+func verifTableNodes(ns mNodes) []VerifTableNode {
+	out := make([]VerifTableNode, 0, len(ns))
+	for _, n := range ns {
+		n.mu.Lock()
+		v := n.value
+		n.mu.Unlock()
+		out = append(out, VerifTableNode{Ptr: uintptr(unsafe.Pointer(n)), NS: n.ns, Key: n.key, Hash: n.hash, Value: v})
+	}
+	return out
+}
+
+// VerifTableLayout returns the chain of table heads reachable from Cache.mHead (newest first; each
+// following element is the predecessor of the one before) WITHOUT initialising anything.  Each bucket is
+// read under its own mutex, so with a background initBuckets running the whole is not one atomic
+// snapshot: the caller reads until two successive results are equal.  nil when the cache is closed.
+func (r *Cache) VerifTableLayout() []VerifHeadInfo {
+	var out []VerifHeadInfo
+	h := (*mHead)(atomic.LoadPointer(&r.mHead))
+	for h != nil {
+		p := (*mHead)(atomic.LoadPointer(&h.predecessor))
+		hi := VerifHeadInfo{
+			Ptr:             uintptr(unsafe.Pointer(h)),
+			Mask:            h.mask,
+			HasPred:         p != nil,
+			Resizing:        atomic.LoadInt32(&h.resizeInProgress) != 0,
+			Overflow:        atomic.LoadInt32(&h.overflow),
+			GrowThreshold:   h.growThreshold,
+			ShrinkThreshold: h.shrinkThreshold,
+			Buckets:         make([]VerifBucketInfo, len(h.buckets)),
+		}
+		for i := range h.buckets {
+			b := &h.buckets[i]
+			b.mu.Lock()
+			hi.Buckets[i] = VerifBucketInfo{State: int(b.state), Nodes: verifTableNodes(b.nodes)}
+			b.mu.Unlock()
+		}
+		out = append(out, hi)
+		h = p
+	}
+	return out
+}
+
+// VerifInitBucket calls initBucket(i) on the head at the given depth of the chain (0 = Cache.mHead), the
+// call the background initBuckets goroutine of that head makes.  false when there is no such head/bucket.
+func (r *Cache) VerifInitBucket(depth int, i uint32) bool {
+	h := (*mHead)(atomic.LoadPointer(&r.mHead))
+	for d := 0; d < depth && h != nil; d++ {
+		h = (*mHead)(atomic.LoadPointer(&h.predecessor))
+	}
+	if h == nil || int(i) >= len(h.buckets) {
+		return false
+	}
+	h.initBucket(i)
+	return true
+}
+
+// VerifEnumerate returns the slice Cache.enumerateNodesWithCB passes to its callback at the end (all nodes,
+// in bucket order); VerifEnumerateNS what Cache.enumerateNodesByNS returns.
+func (r *Cache) VerifEnumerate() []VerifTableNode {
+	var all []*Node
+	r.enumerateNodesWithCB(func(nodes []*Node) { all = nodes })
+	return verifTableNodes(all)
+}
+
+func (r *Cache) VerifEnumerateNS(ns uint64) []VerifTableNode {
+	return verifTableNodes(r.enumerateNodesByNS(ns))
+}
+
+// VerifTableDeleteKey runs Cache.delete for a node object with the given key that is NOT the linked one (the
+// call a stale zero-check makes): the linked node, if any, has a non-zero count, so nothing is removed.
+func (r *Cache) VerifTableDeleteKey(ns, key uint64) bool {
+	n := &Node{r: r, hash: murmur32(ns, key, 0xf00), ns: ns, key: key}
+	return r.delete(n)
+}
+
+// VerifHandlePtr returns the identity of the node a live handle points to (0 for a released or nil handle).
+func VerifHandlePtr(h *Handle) uintptr {
+	if h == nil {
+		return 0
+	}
+	return uintptr(atomic.LoadPointer(&h.n))
+}
+
+// VerifMurmur32 is murmur32.
+func VerifMurmur32(ns, key uint64, seed uint32) uint32 { return murmur32(ns, key, seed) }
